@@ -121,10 +121,14 @@ GrammarLemma(u) ==
   /\ Classify(<<83, 45, 49, 45>> \o DigitChars(Pow2_64) \o <<45, 49>>) = "reject"
   /\ Classify(<<83, 45, 49, 45, 53, 45>> \o <<48>> \o DigitChars(Pow2_32)) = "reject"   \* leading 0, still too big
   /\ Classify(<<83, 45, 49, 45, 53, 45, 48, 49, 56>>) = "dontcare"         \* S-1-5-018
-  /\ Classify(<<115, 45, 49, 45, 53, 45, 49, 56>>) = "dontcare"            \* s-1-5-18
-  /\ Classify(<<83, 45, 49, 48, 45, 53, 45, 49, 56>>) = "dontcare"         \* S-10-5-18
-  /\ Classify(<<83, 45, 49>>) = "dontcare"
-  /\ Classify(<<83, 45, 49, 45, 53, 45, 49, 56, 120>>) = "dontcare"        \* S-1-5-18x
+  /\ Classify(<<83, 45, 49, 45, 48, 53, 45, 49, 56>>) = "dontcare"         \* S-1-05-18
+  /\ Classify(<<115, 45, 49, 45, 53, 45, 49, 56>>) = "reject"              \* s-1-5-18     (not SID syntax)
+  /\ Classify(<<383, 45, 49, 45, 53, 45, 49, 56>>) = "reject"              \* U+017F-1-5-18
+  /\ Classify(<<83, 45, 49, 48, 45, 53, 45, 49, 56>>) = "reject"           \* S-10-5-18
+  /\ Classify(<<83, 45, 49>>) = "reject"
+  /\ Classify(<<83>>) = "reject" /\ Classify(<<83, 89>>) = "reject"        \* S, SY
+  /\ Classify(<<83, 45, 49, 45, 48, 120, 53, 45, 49, 56>>) = "reject"      \* S-1-0x5-18
+  /\ Classify(<<83, 45, 49, 45, 53, 45, 49, 56, 120>>) = "reject"          \* S-1-5-18x
   /\ Classify(<<>>) = "reject"
   /\ Classify(Str([rev |-> 1, auth |-> <<5>>, subs |-> [i \in 1 .. 16 |-> <<7>>]])) = "reject"
   /\ Classify(Str([rev |-> 1, auth |-> <<5>>, subs |-> [i \in 1 .. 15 |-> <<7>>]])) = "canonical"
